@@ -662,8 +662,14 @@ def _save_composite_subset_state(state, context):
 @loader(CompositeSubsetState)
 def _load_composite_subset_state(rec, context):
     cls = lookup_class_with_patches(rec['_type'])
-    result = cls(context.object(rec['state1']),
-                 context.object(rec['state2']))
+    state1 = context.object(rec['state1'])
+    state2 = context.object(rec['state2'])
+    result = cls(state1, state2)
+    # The constructor copies the states it is given, but some states (e.g.
+    # SliceSubsetState) are only completed later on by a callback on the
+    # restored objects, so we keep these objects rather than the copies.
+    result.state1 = state1
+    result.state2 = state2
     return result
 
 
